@@ -59,17 +59,24 @@ theorem tables_basic_codes :
     basicErrorAsRef.arms.lookup "InvalidScope" = some "invalid_scope" := by
   refine ⟨?_, ?_, ?_, ?_, ?_, ?_, ?_, ?_, ?_, ?_, ?_, ?_⟩ <;> decide
 
-/-- `DeviceCodeErrorResponseType`: the basic table is consulted first; only its `Extension(text)` result is
-matched against the four RFC 8628 codes; everything else is wrapped in `Basic(..)` unchanged.  None of the
-four codes is shadowed by a basic code. -/
+/-- the two ways an extending enum may combine its own codes with the basic table: the basic table first and only
+its fall-through variant's text matched against the own codes (unrecognised text re-wrapped), or the own codes
+first and everything else handed to the basic table.  Both are the same function provided no own code is a
+basic code (stated next to each use). -/
+def extendsBasic (t : FromStr) : Bool :=
+  t.delegate == some "BasicErrorResponseType" &&
+  ((!t.ownFirst && t.onVariant == some basicErrorFromStr.fallback && t.innerDefaultRewraps) ||
+   (t.ownFirst && t.onVariant == none))
+
+/-- `DeviceCodeErrorResponseType`: the four RFC 8628 codes on top of the basic table (`extendsBasic`); everything
+else is wrapped in `Basic(..)` unchanged.  None of the four codes is shadowed by a basic code. -/
 theorem tables_device :
     deviceErrorFromStr.arms.Perm rfc8628 ∧
-    deviceErrorFromStr.delegate = some "BasicErrorResponseType" ∧
-    deviceErrorFromStr.onVariant = some basicErrorFromStr.fallback ∧
-    deviceErrorFromStr.fallback = "Basic" ∧ deviceErrorFromStr.innerDefaultRewraps = true ∧
+    extendsBasic deviceErrorFromStr = true ∧
+    deviceErrorFromStr.fallback = "Basic" ∧
     deviceErrorAsRef.arms.Perm (swap rfc8628) ∧ deviceErrorAsRef.passthrough = [("Basic", "delegate")] ∧
     (∀ p ∈ deviceErrorFromStr.arms, basicErrorFromStr.arms.lookup p.1 = none) := by
-  refine ⟨?_, ?_, ?_, ?_, ?_, ?_, ?_, ?_⟩ <;> decide
+  refine ⟨?_, ?_, ?_, ?_, ?_, ?_⟩ <;> decide
 
 theorem tables_device_codes :
     deviceErrorFromStr.arms.lookup "authorization_pending" = some "AuthorizationPending" ∧
@@ -85,14 +92,13 @@ theorem tables_device_codes :
 /-- `RevocationErrorResponseType`: basic table first, then `unsupported_token_type`. -/
 theorem tables_revocation :
     revocationErrorFromStr.arms.Perm rfc7009 ∧
-    revocationErrorFromStr.delegate = some "BasicErrorResponseType" ∧
-    revocationErrorFromStr.onVariant = some basicErrorFromStr.fallback ∧
-    revocationErrorFromStr.fallback = "Basic" ∧ revocationErrorFromStr.innerDefaultRewraps = true ∧
+    extendsBasic revocationErrorFromStr = true ∧
+    revocationErrorFromStr.fallback = "Basic" ∧
     revocationErrorAsRef.arms.Perm (swap rfc7009) ∧ revocationErrorAsRef.passthrough = [("Basic", "delegate")] ∧
     (∀ p ∈ revocationErrorFromStr.arms, basicErrorFromStr.arms.lookup p.1 = none) ∧
     revocationErrorFromStr.arms.lookup "unsupported_token_type" = some "UnsupportedTokenType" ∧
     revocationErrorAsRef.arms.lookup "UnsupportedTokenType" = some "unsupported_token_type" := by
-  refine ⟨?_, ?_, ?_, ?_, ?_, ?_, ?_, ?_, ?_, ?_⟩ <;> decide
+  refine ⟨?_, ?_, ?_, ?_, ?_, ?_, ?_, ?_⟩ <;> decide
 
 /-- `BasicTokenType` -/
 theorem tables_token_type :
@@ -123,19 +129,22 @@ theorem consts_device_poll :
 -- GenResp.classify_eq / status_is_200_only); the coarser text-level versions that used to live here alarmed on
 -- harmless rewrites (renaming a local, swapping if/else) and were dropped.
 
-def verifierLen : String := "code_verifier.secret().len()"
+/-- the verifier's length as the constructors read it (their parameter is written `p0`) -/
+def verifierLen : String := "p0.secret().len()"
 
 /-- C04: 32..=96 random bytes; verifier length 43..128 checked by BOTH challenge constructors; the two
-method names.  The byte bounds are the ones whose unpadded base64 length is exactly 43 and 128. -/
+method names.  The byte bounds are the ones whose unpadded base64 length is exactly 43 and 128.  The assertions
+are read as inclusive ranges `lo ≤ subject ≤ hi`, however they are spelt (`a..=b`, `a..b+1`, two comparisons,
+named constants, a shared private helper). -/
 theorem consts_pkce :
-    pkceBytesLo = 32 ∧ pkceBytesHi = 96 ∧ pkceBytesHiInclusive = true ∧ pkceBytesSubject = "&num_bytes" ∧
+    pkceBytesLo = 32 ∧ pkceBytesHi = 96 ∧ pkceBytesSubject = "p0" ∧
     pkceVerifierChecks.Perm
-      [{ fn_ := "from_code_verifier_sha256", conj := "&&", first := (verifierLen, ">=", 43), second := (verifierLen, "<=", 128) },
-       { fn_ := "from_code_verifier_plain", conj := "&&", first := (verifierLen, ">=", 43), second := (verifierLen, "<=", 128) }] ∧
+      [{ fn_ := "from_code_verifier_sha256", subject := verifierLen, lo := 43, hi := 128 },
+       { fn_ := "from_code_verifier_plain", subject := verifierLen, lo := 43, hi := 128 }] ∧
     pkceMethods.lookup "from_code_verifier_sha256" = some "S256" ∧
     pkceMethods.lookup "from_code_verifier_plain" = some "plain" ∧ pkceMethods.length = 2 ∧
     (4 * pkceBytesLo + 2) / 3 = 43 ∧ (4 * pkceBytesHi + 2) / 3 = 128 := by
-  refine ⟨?_, ?_, ?_, ?_, ?_, ?_, ?_, ?_, ?_, ?_⟩ <;> decide
+  refine ⟨?_, ?_, ?_, ?_, ?_, ?_, ?_, ?_, ?_⟩ <;> decide
 
 /-- C12: default entropy — 16 bytes for CSRF tokens, 32 bytes for PKCE verifiers (both constructors). -/
 theorem consts_random_bytes :
@@ -148,12 +157,12 @@ theorem consts_content_types :
     contentTypeJson = "application/json" ∧ contentTypeFormencoded = "application/x-www-form-urlencoded" := by
   refine ⟨?_, ?_⟩ <;> decide
 
-/-- C13: revocation refuses every scheme that is not exactly `https`. -/
+/-- C13: revocation refuses every URL whose scheme (of the endpoint passed in, `p0`) is not exactly `https`, with the
+insecure-URL error naming the revocation endpoint. -/
 theorem consts_revocation_https :
-    revokeSchemeLit = "https" ∧ revokeSchemeCheck.op = "!=" ∧
-    revokeSchemeCheck.lhs = "revocation_url.url().scheme()" ∧
-    revokeSchemeThen = "{returnErr(ConfigurationError::InsecureUrl(\"revocation\"));}" := by
-  refine ⟨?_, ?_, ?_, ?_⟩ <;> decide
+    revokeSchemeLit = "https" ∧ revokeSchemeSubject = "p0.url().scheme()" ∧
+    revokeSchemeError = ("InsecureUrl", "revocation") := by
+  refine ⟨?_, ?_, ?_⟩ <;> decide
 
 /-! ## Inventory -/
 
@@ -186,8 +195,9 @@ def implOfTrait (m : MacroDef) (t : String) : Option MacroImpl := m.impls.find? 
 
 /-- C10 / C20: what `new_secret_type!` implements — `Debug` prints the type name and the fixed text
 `([redacted])` without touching `self`; `PartialEq` / `Hash` exist only under the
-timing-resistant feature and go through `Sha256::digest`; `Eq` only under the same feature; no
-`Display`, no other trait. -/
+timing-resistant feature and compare / hash the two full `Sha256::digest`s of the wrapped values (recognised by
+form — `==` or `.eq`, method or path call of `hash`, any text view of the value — not by exact text); `Eq` only
+under the same feature; no `Display`, no other trait. -/
 theorem inv_secret_macro :
     ∃ m, secretMacro = some m ∧
       m.structFields = ["__type"] ∧ m.structDerives = [] ∧
@@ -195,10 +205,8 @@ theorem inv_secret_macro :
       (m.impls.map (·.trait_)).Perm ["Debug", "PartialEq", "Hash"] ∧
       m.inherentFns.Perm ["new", "secret", "into_secret"] ∧
       (∃ d, implOfTrait m "Debug" = some d ∧ d.cfg = none ∧ d.literals = ["([redacted])"] ∧ d.mentionsSelf = false) ∧
-      (∃ p, implOfTrait m "PartialEq" = some p ∧ p.cfg = some timingCfg ∧
-        p.body = "{Sha256::digest(&self.0)==Sha256::digest(&other.0)}") ∧
-      (∃ h, implOfTrait m "Hash" = some h ∧ h.cfg = some timingCfg ∧
-        h.body = "{Sha256::digest(&self.0).hash(state)}") ∧
+      (∃ p, implOfTrait m "PartialEq" = some p ∧ p.cfg = some timingCfg ∧ p.shape = "sha256-digest-eq") ∧
+      (∃ h, implOfTrait m "Hash" = some h ∧ h.cfg = some timingCfg ∧ h.shape = "sha256-digest-hash") ∧
       implOfTrait m "Display" = none := by
   refine ⟨_, rfl, ?_, ?_, ?_, ?_, ?_, ⟨_, rfl, ?_, ?_, ?_⟩, ⟨_, rfl, ?_, ?_⟩, ⟨_, rfl, ?_, ?_⟩, ?_⟩ <;> decide
 
@@ -225,7 +233,7 @@ theorem inv_plain_types :
 /-- C10: the only hand-written `Debug` / `Display` impls in the crate are those of the three error-code
 enums (which print the code) and `Display` of `StandardErrorResponse`; every other `Debug` is derived. -/
 theorem inv_handwritten_fmt :
-    (traitImpls.filter (·.trait_ == "Debug")).map (·.ty) =
+    ((traitImpls.filter (·.trait_ == "Debug")).map (·.ty)).Perm
       ["BasicErrorResponseType", "DeviceCodeErrorResponseType", "RevocationErrorResponseType"] ∧
     ((traitImpls.filter (·.trait_ == "Display")).map (·.ty)).Perm
       ["BasicErrorResponseType", "DeviceCodeErrorResponseType", "RevocationErrorResponseType", "StandardErrorResponse"] ∧
@@ -263,7 +271,8 @@ theorem inv_client_plain_data :
 
 /-- C12: both `new_random_len` bodies draw `num_bytes` bytes, one `thread_rng().gen::<u8>()` per index in
 order `0..num_bytes`, collect them into a `Vec<u8>` and encode exactly that vector with
-`BASE64_URL_SAFE_NO_PAD`. -/
+`BASE64_URL_SAFE_NO_PAD` (written as `map/collect` or as the push loop it stands for, in place or in a shared
+private function); the PKCE one asserts the byte-count range first, the CSRF one asserts nothing. -/
 theorem inv_random_len :
     (randomLen.map (·.owner)).Perm ["CsrfToken", "PkceCodeChallenge"] ∧
     (∀ r ∈ randomLen,
@@ -274,7 +283,7 @@ theorem inv_random_len :
     (randomLen.map fun r => (r.owner, r.wrapper)).Perm
       [("CsrfToken", "CsrfToken::new"), ("PkceCodeChallenge", "PkceCodeVerifier::new")] ∧
     (∀ r ∈ randomLen, r.owner = "CsrfToken" → r.asserts = []) ∧
-    (∀ r ∈ randomLen, r.owner = "PkceCodeChallenge" → r.asserts = ["(32..=96).contains(&num_bytes)"]) := by
+    (∀ r ∈ randomLen, r.owner = "PkceCodeChallenge" → r.asserts = ["32<=p0<=96"]) := by
   refine ⟨?_, ?_, ?_, ?_, ?_⟩ <;> decide
 
 end GenObl
